@@ -48,46 +48,63 @@ def r1_fresh(R) -> None:
         R.require(q, len(calls), 'super().reindex(...)', fi=fi, pred=lambda x: is_super_call(x, 'reindex'))
 
 
+def _stmt_of(fnode, se, node):
+    best = None
+    for s_ in ast.walk(fnode):
+        if isinstance(s_, ast.stmt) and id(s_) in se.before and any(x is node for x in ast.walk(s_)):
+            if best is None or any(x is s_ for x in ast.walk(best)):
+                best = s_
+    if best is None:
+        raise Unsupported('statement not visited by the symbolic evaluator')
+    return best
+
+
 def r2_fill_defaults(R) -> None:
+    from fsa.gated import SymExec, canon
     f = Fn(R, VR)
-    # dtype dispatch
-    want = {'bool': ('False', 'bool(value)'), 'np.integer': ('0', 'int(value)'), 'str': ("''", 'str(value)')}
-    seen = {}
-    for t in f.tests():
-        a = t.ast
-        if is_call(a, 'np.issubdtype') and len(a.args) == 2 and text(a.args[0]) in ('self[name].dtype', "self.__dict__['_' + name].dtype"):
-            seen[text(a.args[1])] = t
-    for kind, (dflt, coerce) in want.items():
-        t = seen.get(kind)
-        if t is None:
-            R.violation(VR, f'dtype-row-missing:{kind}', f'no fill rule for dtype family `{kind}` (such series cannot hold NaN)', where=f.fi.where)
-            continue
-        none_v = other_v = None
-        for d in f.assigns_to('value'):
-            g = [(text(x), truth) for (x, truth, tn) in f.guard_atoms(d.id)]
-            if (t.id, 'T') not in f.guards_of(d.id):
+    # the fill value handed to np.full for each rebuilt series, as one gated expression
+    stores = [n for n in f.cfg.nodes if n.kind == 'stmt' and isinstance(n.ast, ast.Assign) and dict_slot(n.ast.targets[0]) is not None
+              and is_underscore_key(dict_slot(n.ast.targets[0])[1]) is not None]
+    want = {'bool': ('False', 'bool'), 'np.integer': ('0', 'int'), 'str': ("''", 'str')}
+    if stores and is_call(stores[0].ast.value, 'np.full', 'numpy.full') and len(stores[0].ast.value.args) >= 2:
+        se = SymExec(f.fi.node)
+        st = stores[0].ast
+        nm_key = text(is_underscore_key(dict_slot(st.targets[0])[1]))
+        fill = canon(se.value(st, st.value.args[1]))
+        dts = {f'self[{nm_key}].dtype', f"self.__dict__['_' + {nm_key}].dtype", f'self.__getitem__({nm_key}).dtype'}
+        rows = {}
+        cur = fill
+        while isinstance(cur, ast.IfExp) and is_call(cur.test, 'np.issubdtype', 'numpy.issubdtype') and len(cur.test.args) == 2 and text(cur.test.args[0]) in dts:
+            rows[text(cur.test.args[1])] = cur.body
+            cur = cur.orelse
+        base = cur
+        if any(is_call(x, 'np.issubdtype', 'numpy.issubdtype') for x in ast.walk(base)):
+            raise Unsupported(f'{VR}: dtype dispatch of the fill value not modelled: `{text(base)[:80]}`')
+        for kind, (dflt, fn) in want.items():
+            row = rows.get(kind)
+            if row is None:
+                R.violation(VR, f'dtype-row-missing:{kind}', f'no fill rule for dtype family `{kind}` (such series cannot hold NaN)', where=f.where(stores[0]))
                 continue
-            # innermost classification
-            inner = [(x, truth) for (x, truth, tn) in f.guard_atoms(d.id) if tn.id != t.id and t.id in f.dom[tn.id]]
-            own = [(text(x), truth) for (x, truth) in inner if 'value is None' in text(x)]
-            # exclude defs nested in a later dtype branch
-            others = [tt for k2, tt in seen.items() if k2 != kind and (tt.id, 'T') in f.guards_of(d.id)]
-            if others:
-                continue
-            if ('value is None', True) in own:
-                none_v = text(d.ast.value)
-            elif ('value is None', False) in own:
-                other_v = text(d.ast.value)
-        R.check(none_v == dflt, VR, f'fill-default:{kind}:{none_v}', f'{kind} series are filled with {dflt} when no fill value is given',
-                f'default fill for {kind} series is `{none_v}`, expected `{dflt}`', where=f.where(t))
-        R.check(other_v == coerce, VR, f'fill-coerce:{kind}:{other_v}', f'a given fill value is coerced with {coerce}',
-                f'given fill for {kind} series becomes `{other_v}`, expected `{coerce}`', where=f.where(t))
+            none_v = other_v = None
+            if isinstance(row, ast.IfExp) and text(row.test) == f'{text(base)} is None':
+                none_v, other_v = text(row.body), text(row.orelse)
+            elif isinstance(row, ast.IfExp) and isinstance(row.test, ast.Compare) and isinstance(row.test.ops[0], ast.Is) and text(row.test.comparators[0]) == 'None':
+                none_v, other_v = text(row.body), text(row.orelse) + f'  [tested on `{text(row.test.left)[:40]}`]'
+            else:
+                none_v = other_v = text(row)
+            R.check(none_v == dflt, VR, f'fill-default:{kind}:{none_v[:40]}', f'{kind} series are filled with {dflt} when no fill value is given',
+                    f'default fill for {kind} series is `{none_v[:60]}`, expected `{dflt}`', where=f.where(stores[0]))
+            R.check(other_v == f'{fn}({text(base)})', VR, f'fill-coerce:{kind}:{other_v[:40]}', f'a given fill value is coerced with {fn}(value)',
+                    f'given fill for {kind} series becomes `{other_v[:80]}`, expected `{fn}(value)`', where=f.where(stores[0]))
+        # precedence of what is coerced: per-variable fill, else fill_value
+        okp = method_call(base, 'get') and text(base.func.value) == 'fill_values' and [text(a_) for a_ in base.args] == [nm_key, 'fill_value']
+        R.check(okp, VR, 'fill-source:' + text(base)[:50], 'the fill is the per-variable value, else fill_value', f'the fill value starts as `{text(base)[:70]}`', where=f.where(stores[0]))
     # np.full(len(span), value, dtype=old)
     stores = [n for n in f.cfg.nodes if n.kind == 'stmt' and isinstance(n.ast, ast.Assign) and dict_slot(n.ast.targets[0]) is not None
               and is_underscore_key(dict_slot(n.ast.targets[0])[1]) is not None]
     if R.require(VR, len(stores), "reindexed.__dict__['_' + name] = np.full(len(span), value, dtype=old dtype)", fi=f.fi, pred=lambda x: is_call(x, 'np.full')):
         v = stores[0].ast.value
-        ok = is_call(v, 'np.full') and text(v.args[0]) == 'len(span)' and text(v.args[1]) == 'value'
+        ok = is_call(v, 'np.full', 'numpy.full') and len(v.args) >= 2 and f.etext(stores[0].id, v.args[0]) == 'len(span)'
         R.check(ok, VR, 'new-array:' + text(v)[:60], 'new series have len(new span) and the chosen fill', f'`{text(v)[:70]}`', where=f.where(stores[0]))
         R.check(dict_slot(stores[0].ast.targets[0])[0] == 'reindexed', VR, 'new-array-owner', 'the new arrays go into the copy', 'the new array is stored in the original', where=f.where(stores[0]))
     # model defaults equal the initial values in ModelInterface.__init__
@@ -157,28 +174,40 @@ def r4_strict(R) -> None:
 
 
 def r5_position_map(R) -> None:
+    from fsa.match import nnf_atoms
     f = Fn(R, VR)
-    # positions[i] = self._locate_period_in_span(period) for i, period in enumerate(span) if period in self.span
-    st = [n for n in f.cfg.nodes if n.kind == 'stmt' and isinstance(n.ast, ast.Assign) and isinstance(n.ast.targets[0], ast.Subscript)
-          and text(n.ast.targets[0].value) == 'positions']
-    if not R.require(VR, len(st), 'positions[new] = old position', fi=f.fi, pred=lambda x: isinstance(x, ast.Subscript) and text(x.value) == 'positions'):
-        return
-    n = st[0]
-    lp = [f.cfg.nodes[i] for i in n.loops]
-    ok = bool(lp) and text(lp[-1].ast.iter) == 'enumerate(span)'
-    tg = [x.id for x in ast.walk(lp[-1].ast.target) if isinstance(x, ast.Name)] if lp else []
-    ok = ok and len(tg) == 2 and text(n.ast.targets[0].slice) == tg[0] and text(n.ast.value) == f'self._locate_period_in_span({tg[1]})'
-    R.check(ok, VR, 'map-build:' + text(n.ast), 'the map sends each new position to the old position of the same label',
-            f'`{text(n.ast)}` inside `for {text(lp[-1].ast.target) if lp else "?"} in {text(lp[-1].ast.iter) if lp else "?"}` does not build new -> old', where=f.where(n))
-    atoms = [(text(a), truth) for (a, truth, _t) in f.guard_atoms(n.id)]
-    R.check(len(tg) == 2 and (f'{tg[1]} in self.span', True) in atoms, VR, 'map-only-shared', 'only labels present in the old span are mapped', f'guard is {atoms}', where=f.where(n))
+    # consumption first: `for new, old in <map>.items(): reindexed[name][new] = self[name][old]` names the map
+    cp = [m for m in f.cfg.nodes if m.kind == 'stmt' and isinstance(m.ast, ast.Assign) and isinstance(m.ast.targets[0], ast.Subscript)
+          and isinstance(m.ast.targets[0].value, ast.Subscript) and text(m.ast.targets[0].value.value) == 'reindexed']
+    pmap = 'positions'
+    if cp and cp[0].loops:
+        it = f.cfg.nodes[cp[0].loops[-1]].ast.iter
+        if method_call(it, 'items') and isinstance(it.func.value, ast.Name):
+            pmap = it.func.value.id
+    # construction: {i: self._locate_period_in_span(period) for i, period in enumerate(span) if period in self.span}
+    anchor = f.cfg.nodes[cp[0].loops[-1]] if cp and cp[0].loops else None
+    dc = f.as_dictcomp(anchor.id, ast.Name(id=pmap, ctx=ast.Load())) if anchor is not None else None
+    if dc is None:
+        st = [n for n in f.cfg.nodes if n.kind == 'stmt' and isinstance(n.ast, ast.Assign) and isinstance(n.ast.targets[0], ast.Subscript) and text(n.ast.targets[0].value) == pmap]
+        if not R.require(VR, len(st), 'positions[new] = old position', fi=f.fi, pred=lambda x: isinstance(x, ast.Subscript) and text(x.value) == pmap):
+            return
+        dc = f.loop_store_comp(st[0])
+        if dc is None:
+            raise Unsupported(f'{VR}: the position map `{pmap}` is not built by one loop or comprehension')
+    g = dc.generators[0]
+    tg = [x.id for x in ast.walk(g.target) if isinstance(x, ast.Name)]
+    ok = len(dc.generators) == 1 and text(g.iter) == 'enumerate(span)' and len(tg) == 2 and text(dc.key) == tg[0] and text(dc.value) == f'self._locate_period_in_span({tg[1]})'
+    R.check(ok, VR, 'map-build:' + text(dc)[:80], 'the map sends each new position to the old position of the same label',
+            f'`{text(dc)[:100]}` does not build new -> old', where=f.fi.where)
+    conds = [(text(a_), tr) for c_ in g.ifs for (a_, tr) in nnf_atoms(c_, True)]
+    R.check(len(tg) == 2 and conds == [(f'{tg[1]} in self.span', True)], VR, 'map-only-shared', 'only labels present in the old span are mapped', f'guard is {conds}', where=f.fi.where)
     # consumption: reindexed[name][new] = self[name][old] for new, old in positions.items()
     cp = [m for m in f.cfg.nodes if m.kind == 'stmt' and isinstance(m.ast, ast.Assign) and isinstance(m.ast.targets[0], ast.Subscript)
           and isinstance(m.ast.targets[0].value, ast.Subscript) and text(m.ast.targets[0].value.value) == 'reindexed']
     if R.require(VR, len(cp), 'reindexed[name][new] = self[name][old]', fi=f.fi, pred=lambda x: isinstance(x, ast.Subscript) and text(x.value) == 'reindexed[name]'):
         m = cp[0]
         lp2 = [f.cfg.nodes[i] for i in m.loops]
-        ok = bool(lp2) and text(lp2[-1].ast.iter) == 'positions.items()'
+        ok = bool(lp2) and text(lp2[-1].ast.iter) == f'{pmap}.items()'
         kv = [x.id for x in ast.walk(lp2[-1].ast.target) if isinstance(x, ast.Name)] if lp2 else []
         v = m.ast.value
         ok = ok and len(kv) == 2 and text(m.ast.targets[0].slice) == kv[0] and isinstance(v, ast.Subscript) and text(v.value) == 'self[name]' and text(v.slice) == kv[1] \
